@@ -202,5 +202,22 @@ def replay(rec, path, quiet=False):
         if not quiet:
             print(f"replay of {path}: no violation")
         return 0, {"type": "ok"}
+    if rec.get("engine") == "miri":
+        os.makedirs(D.SCRATCH, exist_ok=True)
+        path2 = os.path.join(D.SCRATCH, f"miri-replay-{os.getpid()}.txt")
+        with open(path2, "w") as f:
+            f.write(rec["history_line"] + "\n")
+        env = dict(os.environ, MIRIFLAGS="-Zmiri-disable-isolation -Zmiri-ignore-leaks", CARGO_NET_OFFLINE="true")
+        p = subprocess.run(["cargo", "+nightly", "miri", "run", "--offline", "--", "replay-many", "--file", path2], cwd=D.SIM, env=env, stdout=subprocess.PIPE, stderr=subprocess.PIPE, text=True)
+        os.remove(path2)
+        if "Undefined Behavior" in p.stderr:
+            if not quiet:
+                i = p.stderr.find("error:")
+                print("violation kind=undefined-behaviour cause=miri msg=" + " ".join(p.stderr[i:i + 600].split()))
+                print(f"VIOLATION property={rec['property']} replay={path}")
+            return 1, {"type": "violation", "kind": "undefined-behaviour", "cause": "miri", "props": [rec["property"]]}
+        if not quiet:
+            print(f"replay of {path}: no undefined behaviour reported")
+        return 0, {"type": "ok"}
     D.eprint("HARNESS-ERROR unknown replay engine")
     return 2, {}
